@@ -56,9 +56,54 @@ class C07(Prop):
                     out.append(Case("time", fl, [("pipe", [[head, str(d), ["hot", "0"]]])],
                                     [["sub"], ["run"], ["emit", "0", ["n", "1"]], ["run"], ["q", "timers"],
                                      ["adv", str(d)], ["run"]], {"kind": "at-forms"}))
-        return tg.with_units(seed, out)
+        out = tg.with_units(seed, out)
+        # feedback loops (field `fb`): the subscriber, on receiving v > 0, pushes v - 1 into the source from INSIDE
+        # its callback; every hop goes through a scheduler task, so this is ordinary use of delay / observe_on
+        # (count-down, polling loops).  poll / fire / adv only: one delivery per polling event.
+        for head in (["delay", "0"], ["delay", "2"], ["observeon"], ["delay", "1", ["observeon"]],
+                     ["observeon", ["delay", "2"]]):
+            for pre in ([], ["map", "id"], ["tap"], ["filter", "true"]):
+                for post in ([], ["map", "id"], ["tap"]):
+                    for m in (1, 2, 3):
+                        for fl in ("local", "threads"):
+                            node = (pre + [["hot", "0"]]) if pre else ["hot", "0"]
+                            stages = [head[:-1], head[-1]] if isinstance(head[-1], list) else [head]
+                            for st in reversed(stages):
+                                node = st + [node]
+                            if post:
+                                node = post + [node]
+                            evs = [["sub"], ["emit", "0", ["n", str(m)]]]
+                            for _ in range((m + 2) * len(stages)):
+                                evs += [["poll", "0"], ["adv", "2"], ["fire", "0"], ["poll", "0"], ["poll", "0"]]
+                            out.append(Case("time", fl, [("fb", ["1"]), ("pipe", [node])], evs,
+                                            {"kind": "feedback", "m": m}))
+        return out
 
     def oracle(self, case, lines, model_lines=None):
+        if case.field("fb"):
+            # every value of the count-down arrives, in order, exactly once
+            got = []
+            for k in range(len(case.events)):
+                b = lines.get(k)
+                if b in ("PANIC", "HANG"):
+                    return {"kind": b.lower(), "event": k, "detail": b}
+                if b and b.startswith("o="):
+                    outs, _ = tg.parse_suffix(b)
+                    got += [o for o in outs if o.startswith("N")]
+            m = next((int(e[2][1]) for e in case.events if e[0] == "emit" and isinstance(e[2], list)
+                      and e[2][0] == "n"), None)
+            if m is None:
+                return None
+            # (only complete schedules are judged — a shrunk case that no longer polls often enough proves nothing)
+            nst = sum(1 for h in self._heads(case.field("pipe")[0]) if h in ("delay", "observeon"))
+            if sum(1 for e in case.events if e[0] == "poll") < 3 * (m + 2) * nst or \
+                    sum(1 for e in case.events if e[0] == "fire") < (m + 2) * nst:
+                return None
+            want = [f"N{v}" for v in range(m, -1, -1)]
+            if got != want:
+                return {"kind": "feedback-chain-broken", "event": len(case.events) - 1,
+                        "detail": f"the subscriber fed {m}, {m}-1, … back into the source: delivered {got}, expected {want}"}
+            return None
         pipe = case.field("pipe")[0]
         only_moving = all(h in ("delay", "delayat", "observeon", "subscribeon", "delaysub", "delaysubat",
                                 "hot", "iter", "create", "map", "tap")
